@@ -215,6 +215,16 @@ def main(argv=None):
         path = replay_mod.make_replay(prop, oid, a, args.repo, first.get(a["unit"]))
         tail = "" if path[1] else " no-failing-input-found"
         vio_lines.append("VIOLATION property=%s replay=%s obligation=%s%s" % (prop, path[0], oid, tail))
+    # bounded stand-ins for the parts of the property no contract decides: run on every run, labelled bounded
+    standin_results, standin_found = replay_mod.standin_search(prop, args.repo)
+    P = dict(P, _standin=standin_results)
+    if standin_found is not None:
+        kf = registry.match_finding(findings, prop, standin_found[1])
+        if kf:
+            known_lines.append("KNOWN-FINDING: property=%s %s -- %s" % (prop, standin_found[1], kf.get("what", "")))
+        else:
+            vio_lines.append("VIOLATION property=%s replay=%s obligation=%s (bounded stand-in: failing input on the real code)" % (prop, standin_found[0], standin_found[1]))
+            real.append((standin_found[1], dict(message="bounded stand-in found a failing input", detail={}, unit=None)))
     # evidence
     ev = None
     if not args.no_evidence:
@@ -316,7 +326,7 @@ def write_evidence(prop, P, tier, seed, runs, first, obs, failures, violations, 
         known_findings=known_lines,
         undecided=undecided, unstable=unstable, infrastructure=infra,
         other_properties_failures=other_failures[:20],
-        bounded=P.get("bounded", []),
+        bounded=P.get("_standin", P.get("bounded", [])),
         not_covered=P.get("not_covered", []),
     )
     kres = P.get("_kani_results")
